@@ -93,6 +93,11 @@ pub fn take_log() -> Vec<MapEvent> {
     MAP_LOG.with(|l| std::mem::take(&mut *l.borrow_mut()))
 }
 
+/// Copy of the calling thread's log so far (recording goes on).
+pub fn peek_log() -> Vec<MapEvent> {
+    MAP_LOG.with(|l| l.borrow().clone())
+}
+
 pub fn stop_recording() -> Vec<MapEvent> {
     MAP_RECORD.with(|r| r.set(false));
     take_log()
@@ -478,6 +483,77 @@ pub unsafe extern "C" fn write(fd: c_int, buf: *const c_void, count: size_t) -> 
         return r;
     }
     libc::syscall(libc::SYS_write, fd as c_long, buf, count) as ssize_t
+}
+
+// ---- auxiliary memory calls -------------------------------------------------------------------
+// mlock / madvise / mprotect on a fresh mapping are steps of a creation that can fail on their
+// own; they are forwarded, counted while the thread records, and the n-th can be made to fail.
+thread_local! {
+    static AUX_FAIL_IN: Cell<i64> = const { Cell::new(-1) };
+    static AUX_CALLS: Cell<u64> = const { Cell::new(0) };
+}
+
+/// The n-th (0-based) mlock/madvise/mprotect call of this thread from now on fails with ENOMEM
+/// (-1: none).
+pub fn fail_aux_in(n: i64) {
+    AUX_FAIL_IN.with(|c| c.set(n));
+}
+
+/// Number of mlock/madvise/mprotect calls this thread made while recording, since the last call.
+pub fn take_aux_calls() -> u64 {
+    AUX_CALLS.with(|c| c.replace(0))
+}
+
+unsafe fn aux_fails() -> bool {
+    if !MAP_RECORD.try_with(|r| r.get()).unwrap_or(false) {
+        return false;
+    }
+    let _ = AUX_CALLS.try_with(|c| c.set(c.get() + 1));
+    let fail = AUX_FAIL_IN
+        .try_with(|c| {
+            let v = c.get();
+            if v >= 0 {
+                c.set(v - 1);
+            }
+            v == 0
+        })
+        .unwrap_or(false);
+    if fail {
+        set_errno(libc::ENOMEM);
+    }
+    fail
+}
+
+#[no_mangle]
+pub unsafe extern "C" fn mlock(addr: *const c_void, len: size_t) -> c_int {
+    if aux_fails() {
+        return -1;
+    }
+    libc::syscall(libc::SYS_mlock, addr, len) as c_int
+}
+
+#[no_mangle]
+pub unsafe extern "C" fn mlock2(addr: *const c_void, len: size_t, flags: libc::c_uint) -> c_int {
+    if aux_fails() {
+        return -1;
+    }
+    libc::syscall(libc::SYS_mlock2, addr, len, flags as c_long) as c_int
+}
+
+#[no_mangle]
+pub unsafe extern "C" fn madvise(addr: *mut c_void, len: size_t, advice: c_int) -> c_int {
+    if aux_fails() {
+        return -1;
+    }
+    libc::syscall(libc::SYS_madvise, addr, len, advice as c_long) as c_int
+}
+
+#[no_mangle]
+pub unsafe extern "C" fn mprotect(addr: *mut c_void, len: size_t, prot: c_int) -> c_int {
+    if aux_fails() {
+        return -1;
+    }
+    libc::syscall(libc::SYS_mprotect, addr, len, prot as c_long) as c_int
 }
 
 /// Self-test of the lseek hook (used by the checks that inject seek faults).
